@@ -11,6 +11,9 @@ namespace Vipnode
 
 inductive GoType
   | str | int | bool | obj | ptr (t : GoType)
+  | slice      -- []string: a JSON array
+  | anymap     -- map[string]interface{}: any JSON object
+  | any        -- interface{}: any JSON value
 deriving Repr, DecidableEq
 
 inductive JKind
@@ -24,6 +27,10 @@ def compat : JKind → GoType → Bool
   | .int, .int => true
   | .bool, .bool => true
   | .obj, .obj => true
+  | .arr, .slice => true
+  | .obj, .anymap => true
+  | .badobj, .anymap => true
+  | _, .any => true
   | _, _ => false
 
 inductive Params
